@@ -142,11 +142,14 @@ def pairListI (e : Sexp) : Option (List (List Nat × Int)) := do
 
 inductive CompErr | invalidTag | syntaxErr
 
-/-- A component description.  `(P shape strides buf)`, `(B expr)`, `(U froms f ravel)`,
+/-- A component description.  `(P shape strides buf)` (`C` = the same, flagged as a coordinate
+component: only the `hist` family, whose calls depend on the kind, sends it), `(B expr)`, `(U froms f ravel)`,
 `(X text refs lits)`. -/
 def parseComp : Sexp → Option (Except CompErr (Comp Nat Nat Int))
   | .list [.atom "P", sh, st, buf] => do
-    some (.ok (.prim (mkArr (← sh.toNats?) (← st.toInts?) (← buf.toInts?))))
+    some (.ok (.prim (mkArr (← sh.toNats?) (← st.toInts?) (← buf.toInts?)) false))
+  | .list [.atom "C", sh, st, buf] => do    -- a pixel / world CoordinateComponent (`hist` only)
+    some (.ok (.prim (mkArr (← sh.toNats?) (← st.toInts?) (← buf.toInts?)) true))
   | .list [.atom "B", e] => do some (.ok (.derived (.binary (← parseExpr e))))
   | .list [.atom "U", fs, f, rv] => do
     some (.ok (.derived (.func (← fs.toNats?) (← f.toNat?) (← rv.toBool?))))
@@ -296,12 +299,7 @@ def evalFamily (w : World) (pyout : Sexp) (withStrides : Bool) : String :=
 
 /-! ### histories -/
 
-inductive HOp where
-  | add (k : Nat) (c : Comp Nat Nat Int)       -- add_component / add_component_link (inputs checked)
-  | addRaw (k : Nat) (c : Comp Nat Nat Int)    -- add_component(DerivedComponent(data, link), cid): no check
-  | remove (k : Nat)
-  | update (old new : Nat)
-  | reorder (pref : List Nat) (exact : Bool)   -- reorder_components(pref [+ the other ids in table order])
+abbrev HOp := Call Nat Nat Int
 
 def parseHOp : Sexp → Option HOp
   | .list [.atom "add", k, c] => do
@@ -317,53 +315,22 @@ def parseHOp : Sexp → Option HOp
   | .list [.atom "reorder", pref, ex] => do some (.reorder (← pref.toNats?) (← ex.toBool?))
   | _ => none
 
-/-- The argument list of `reorder_components`: the listed identifiers, followed (unless `exact`)
-by the identifiers of the table that are not listed, in table order. -/
-def reorderArg (t : Tbl) (pref : List Nat) (exact : Bool) : List Nat :=
-  if exact then pref else pref ++ t.keys.filter fun k => !(pref.contains k)
+/-- Impl step: the calls as coded (`implCall`); a refused call (`ValueError`) leaves the table as
+it was and is reported by the atom. -/
+def implStep (t : Tbl) (o : HOp) : Tbl × Option String :=
+  let r := implCall t o
+  (t.after r, if r.isSome then none else some "value-error")
 
-/-- Impl step: the table operations as coded; the atom is what the call returns/raises. -/
-def implStep (t : Tbl) : HOp → Tbl × Option String
-  | .add k c =>
-    match c.fromIds with
-    | some fs =>
-      -- add_component_link: every input must already be a component of this dataset
-      if fs.all t.keys.contains then (t.set k c, none) else (t, some "value-error")
-    | none => (t.set k c, none)
-  | .addRaw k c => (t.set k c, none)
-  | .remove k => (removeComp (t.length + 1) t k, none)
-  | .update o n => (updateId true t o n, none)
-  | .reorder pref ex =>
-    match reorderComps t (reorderArg t pref ex) with
-    | some t' => (t', none)
-    | none => (t, some "value-error")
-
-/-- Spec step: removal deletes exactly the dependency closure; replacing an identifier renames it
-everywhere (keys and defining expressions) and changes nothing else; reordering lists the same
-components in the requested order. -/
-def specStep (t : Tbl) : HOp → Tbl × Option String
-  | .add k c =>
-    match c.fromIds with
-    | some fs => if fs.all t.keys.contains then (t.set k c, none) else (t, some "value-error")
-    | none => (t.set k c, none)
-  | .addRaw k c => (t.set k c, none)
-  | .remove k =>
-    if t.keys.contains k then
-      let cl := depClosure t k
-      (t.filter (fun p => !(cl.contains p.1)), none)
-    else (t, none)
-  | .update o n =>
-    if o == n || !(t.keys.contains o) then (t, none)
-    else if t.keys.contains n then (updateId true t o n, none)   -- outside the property: as coded
-    else (specRename o n t, none)
-  | .reorder pref ex =>
-    match specReorder t (reorderArg t pref ex) with
-    | some t' => (t', none)
-    | none => (t, some "value-error")
+/-- Spec step (`specCall`): removal deletes exactly the dependency closure; replacing an identifier
+renames it everywhere (keys and defining expressions) and changes nothing else; reordering lists the
+same components in the requested order; a refused call changes nothing. -/
+def specStep (t : Tbl) (o : HOp) : Tbl × Option String :=
+  let r := specCall t o
+  (t.after r, if r.isSome then none else some "value-error")
 
 /-- Values are observed after every call that may take components away, rename or move them, and at
 the end of the history. -/
-def HOp.valued : HOp → Bool
+def hopValued : HOp → Bool
   | .remove _ => true
   | .update _ _ => true
   | .reorder _ _ => true
@@ -403,12 +370,13 @@ partial def obsMatch : Sexp → Sexp → Bool
 
 def stepObs (I : Interp Nat Int) (dshape : List Nat) (spec : Bool) (o : HOp) (t : Tbl)
     (err : Option String) : Sexp :=
+  let full := Sexp.list [ofNats t.keys, if spec then finalSpec I dshape t else finalObs I dshape t]
   match err with
-  | some e => .atom e
-  | none =>
-    if o.valued then
-      .list [ofNats t.keys, if spec then finalSpec I dshape t else finalObs I dshape t]
-    else ofNats t.keys
+  | some e =>
+    -- a refused call: the atom, then the component list and every value *after* the refusal
+    -- (the Spec side lists the unchanged table: a refused call must change nothing)
+    .list [.atom e, full]
+  | none => if hopValued o then full else ofNats t.keys
 
 def histFamily (dshape : List Nat) (t0 : Tbl) (ops : List HOp) (orc : Oracle) (pyout : Sexp) : String :=
   let I := orc.interp
@@ -422,12 +390,19 @@ def histFamily (dshape : List Nat) (t0 : Tbl) (ops : List HOp) (orc : Oracle) (p
   let (sobs, st) := run true t0 ops
   let impl := Sexp.list [.list iobs, finalObs I dshape it]
   let spec := Sexp.list [.list sobs, finalSpec I dshape st]
-  -- hypothesis of the theorems: `update_id` towards an identifier that is not yet in the table
+  -- hypothesis of the theorems (`call_refines_spec`): unique identifiers — an invariant of every
+  -- table a history can reach (checked here on every intermediate table, never false)
   let rec inP (t : Tbl) : List HOp → Bool
-    | [] => true
+    | [] => decide t.keys.Nodup
+    | o :: rest => decide t.keys.Nodup && inP (implStep t o).1 rest
+  -- was some call refused by one of the three repaired refusals (F20 / F21 / F22)?
+  let rec refused (t : Tbl) : List HOp → Bool
+    | [] => false
     | o :: rest =>
-      (match o with | .update a b => a == b || !(t.keys.contains a) || !(t.keys.contains b) | _ => true) &&
-      inP (implStep t o).1 rest
+      (match o with
+        | .remove _ | .update _ _ => (implCall t o).isNone
+        | .add k c | .addRaw k c => (addComp t k c).isNone
+        | _ => false) || refused (implStep t o).1 rest
   let has := fun (f : HOp → Bool) => ops.any f
   let hasU := has fun o => match o with | .update .. => true | _ => false
   let hasR := has fun o => match o with | .remove .. => true | _ => false
@@ -445,7 +420,7 @@ def histFamily (dshape : List Nat) (t0 : Tbl) (ops : List HOp) (orc : Oracle) (p
         | _ => false) || inverted (implStep t o).1 rest
   let br := (if hasU then (if hasR then "update+remove" else "update") else if hasR then "remove" else "add-only")
     ++ (if hasO then "+reorder" else "") ++ (if hasF then "+fwd" else "")
-    ++ (if inverted t0 ops then "+inverted" else "")
+    ++ (if inverted t0 ops then "+inverted" else "") ++ (if refused t0 ops then "+refused" else "")
   driverResult impl (obsMatch spec pyout) (obsMatch spec impl) (inP t0 ops) br
 
 def step (line : String) : String :=
